@@ -138,6 +138,7 @@ pub fn run_c06(ctx: &mut Ctx, _known: &Known) {
     c06_same_field(ctx);
     c06_rows_same_field(ctx);
     c06_key_quantifiers(ctx);
+    c06_same_field_arrays(ctx);
     c06_mixed_groups(ctx);
     let masks = vec![0u64, 15];
     for k in 1..=4usize {
@@ -522,6 +523,56 @@ fn c06_mixed_groups(ctx: &mut Ctx) {
     }
 }
 
+/// Operands that read ONE field with different needles, on documents in which that field is an ARRAY
+/// whose elements satisfy the operands separately: each operand is true when SOME element matches,
+/// and the conjunction is the table over those results — plain and optimised.
+fn c06_same_field_arrays(ctx: &mut Ctx) {
+    let arrays: Vec<Vec<&str>> = vec![vec!["domain admins", "remote desktop users"], vec!["domain admins remote users"], vec!["admins"], vec!["x", "remote", "users of domain"], vec![], vec!["domain", "admins", "remote", "users"]];
+    let mut docs: Vec<Yaml> = arrays.iter().map(|a| map1("groups", Yaml::Sequence(a.iter().map(|x| ys(x)).collect()))).collect();
+    docs.push(map1("groups", ys("domain admins remote users")));
+    docs.push(map1("other", ys("x")));
+    let needles = ["domain", "admins", "remote", "users"];
+    let has = |d: &Yaml, n: &str| -> Tri {
+        match d.as_mapping().and_then(|m| m.get(ys("groups"))) {
+            Some(Yaml::Sequence(xs)) => if xs.iter().any(|x| x.as_str().map(|t| t.contains(n)).unwrap_or(false)) { Tri::T } else { Tri::F },
+            Some(Yaml::String(t)) => if t.contains(n) { Tri::T } else { Tri::F },
+            _ => Tri::M,
+        }
+    };
+    for shape in 0..3 {
+        let ids: Vec<(String, Yaml)> = (0..4).map(|i| (format!("P{}", i), map1("groups", ys(&match shape { 0 => format!("*{}*", needles[i]), 1 => format!("i*{}*", needles[i].to_uppercase()), _ => format!("?{}", needles[i]) })))).collect();
+        let forms: Vec<(&str, Box<dyn Fn(&[Tri]) -> Tri>)> = vec![
+            ("P0 and P1 and P2", Box::new(|v| t_and(&v[0..3]))),
+            ("P0 and P1", Box::new(|v| t_and(&v[0..2]))),
+            ("P0 and P1 and P2 and P3", Box::new(|v| t_and(&v[0..4]))),
+            ("not (P0 and P1 and P2)", Box::new(|v| t_not(t_and(&v[0..3])))),
+            ("(P0 and P1 and P2) or P3", Box::new(|v| t_or(&[t_and(&v[0..3]), v[3]]))),
+            ("P0 or P1 or P2", Box::new(|v| t_or(&v[0..3]))),
+        ];
+        for (cond, table) in forms {
+            let mut det = ids.clone();
+            det.push(("condition".into(), ys(cond)));
+            let c = case(det, docs.clone(), vec![0, 15, 3, 2, 9, 11]);
+            let (ex, parsed) = run_rule_case(ctx, &c, false);
+            let p = match parsed {
+                Some(p) if p.load == "ok" => p,
+                _ => continue,
+            };
+            ctx.nontrivial.insert(hash_str(&format!("arrays{}{}", shape, cond)));
+            'm: for m in &p.masks {
+                for (j, d) in docs.iter().enumerate() {
+                    let v: Vec<Tri> = needles.iter().map(|n| has(d, n)).collect();
+                    let want = table(&v);
+                    if (m.res[j].0 == "T") != (want == Tri::T) {
+                        ctx.violation("oracle", &format!("`{}` over operands that read one array field (mask {}): document {} gives {}, the operands are {:?}", cond, m.mask, serde_yaml::to_string(d).unwrap_or_default().replace('\n', " "), m.res[j].0, v), &ex, &rule_yaml(&c), true);
+                        break 'm;
+                    }
+                }
+            }
+        }
+    }
+}
+
 fn with_cond(ids: &[(String, Yaml)], cond: &str) -> Vec<(String, Yaml)> {
     let mut d = ids.to_vec();
     d.push(("condition".into(), ys(cond)));
@@ -637,6 +688,17 @@ pub fn run_c05(ctx: &mut Ctx, _known: &Known) {
         all.push(Cond::And(Box::new(Cond::Id(a.to_string())), Box::new(Cond::Not(Box::new(Cond::Id(b.to_string()))))));
         all.push(Cond::Or(Box::new(Cond::Id(a.to_string())), Box::new(Cond::And(Box::new(Cond::Id(b.to_string())), Box::new(Cond::Id("B".into()))))));
     }
+    // a negated GROUP followed by another operator (where a misread `not(` would swallow the rest)
+    {
+        let a = || Box::new(Cond::Id("A".into()));
+        let b = || Box::new(Cond::Id("B".into()));
+        let nothing = || Box::new(Cond::Id("nothing".into()));
+        all.push(Cond::And(Box::new(Cond::Not(Box::new(Cond::Or(a(), b())))), nothing()));
+        all.push(Cond::Or(Box::new(Cond::Not(Box::new(Cond::And(a(), b())))), nothing()));
+        all.push(Cond::And(nothing(), Box::new(Cond::Or(Box::new(Cond::Not(Box::new(Cond::Or(a(), b())))), a()))));
+        all.push(Cond::Or(Box::new(Cond::And(Box::new(Cond::Not(Box::new(Cond::Or(b(), a())))), b())), Box::new(Cond::Not(Box::new(Cond::And(a(), nothing()))))));
+        all.push(Cond::And(Box::new(Cond::Not(Box::new(Cond::Cmp("f0".into(), "int", ">=", "1".into())))), a()));
+    }
     // random larger conditions
     let extra = budget(ctx, 300, 6000);
     for i in 0..extra {
@@ -718,6 +780,18 @@ pub fn run_c05(ctx: &mut Ctx, _known: &Known) {
             variants.push(("gaps of 300 blanks and tabs", minimal.replace(' ', &format!("{}\t{}", " ".repeat(150), " ".repeat(149)))));
             variants.push(("2000 blanks in front and behind", format!("{}{}{}", " ".repeat(2000), minimal, " ".repeat(2000))));
         }
+        {
+            // `not` needs its blank: `not(` is the key modifier. A spelling the grammar refuses may be
+            // refused; if it is read, it has to mean what the spelling with the blank means
+            let minimal = { let mut r0 = Rng::new(1); gen::print_cond(c, &mut r0, 0) };
+            let minimal = minimal.split_whitespace().collect::<Vec<_>>().join(" ");
+            if minimal.contains("not (") {
+                variants.push(("compact not(", minimal.replace("not (", "not(")));
+            }
+            if minimal.contains("and (") || minimal.contains("or (") {
+                variants.push(("compact and( / or(", minimal.replace("and (", "and(").replace("or (", "or(")));
+            }
+        }
         let mut first_res: Option<Vec<String>> = None;
         for (vn, text) in variants {
             let mut det = ids.clone();
@@ -726,6 +800,7 @@ pub fn run_c05(ctx: &mut Ctx, _known: &Known) {
             let (ex, parsed) = run_rule_case(ctx, &cs, false);
             let p = match parsed {
                 Some(p) if p.load == "ok" => p,
+                _ if vn.starts_with("compact") => continue,
                 _ => {
                     ctx.violation("oracle", &format!("condition `{}` ({}) does not load: {}", text, vn, trunc(&ex.imp, 160)), &ex, &text, true);
                     continue;
@@ -1706,6 +1781,41 @@ pub fn run_c09(ctx: &mut Ctx, _known: &Known) {
             }
         }
     }
+    // (2d) the SAME field read plain and through str() in one disjunction, in both orders: a number
+    //      matches its canonical decimal text under str() only — plain and optimised
+    {
+        let vals: Vec<Yaml> = vec![Yaml::Number(5u64.into()), Yaml::Number(50u64.into()), ys("5"), ys("administrator"), Yaml::Bool(true), Yaml::Number(2.5f64.into()), Yaml::Null];
+        let ddocs: Vec<Yaml> = vals.iter().map(|v| map1("x", v.clone())).chain(std::iter::once(map1("y", ys("q")))).collect();
+        let text_of = |v: &Yaml| -> Option<String> { match v { Yaml::Number(n) if n.is_u64() => Some(n.as_u64().unwrap().to_string()), Yaml::Number(n) => n.as_f64().map(|f| f.to_string()), Yaml::String(s) => Some(s.clone()), Yaml::Bool(b) => Some(b.to_string()), _ => None } };
+        for (plain_pat, cast_pat) in [("administrator", "5"), ("adm*", "5*"), ("*5", "2.5"), ("5", "true"), ("i5", "5*")] {
+            for order in 0..2 {
+                let (a, b) = if order == 0 { (map1("x", ys(plain_pat)), map1("str(x)", ys(cast_pat))) } else { (map1("str(x)", ys(cast_pat)), map1("x", ys(plain_pat))) };
+                for (det, label) in [
+                    (vec![("A".to_string(), a.clone()), ("B".to_string(), b.clone()), ("C".to_string(), map1("y", ys("zz"))), ("condition".to_string(), ys("A or B or C"))], "A or B or C"),
+                    (vec![("A".to_string(), Yaml::Sequence(vec![a.clone(), b.clone()])), ("condition".to_string(), ys("A"))], "sequence"),
+                ] {
+                    let cs = case(det, ddocs.clone(), vec![0, 15, 2, 3]);
+                    let (ex, parsed) = run_rule_case(ctx, &cs, false);
+                    let ry = rule_yaml(&cs);
+                    let p = match parsed {
+                        Some(p) if p.load == "ok" => p,
+                        _ => continue,
+                    };
+                    'mk: for m in &p.masks {
+                        for (j, v) in vals.iter().enumerate() {
+                            let plain_hit = v.as_str().map(|t| crate::suites::pattern_rel(plain_pat, t) == Some(true)).unwrap_or(false);
+                            let cast_hit = text_of(v).map(|t| crate::suites::pattern_rel(cast_pat, &t) == Some(true)).unwrap_or(false);
+                            ctx.nontrivial.insert(hash_str(&format!("plaincast{}{}{}{}", plain_pat, cast_pat, order, j)));
+                            if (m.res[j].0 == "T") != (plain_hit || cast_hit) {
+                                ctx.violation("oracle", &format!("`x: {}` or `str(x): '{}'` ({}, order {}, mask {}) on x = {:?}: engine {}, plain hit {}, text hit {}", plain_pat, cast_pat, label, order, m.mask, v, m.res[j].0, plain_hit, cast_hit), &ex, &ry, true);
+                                break 'mk;
+                            }
+                        }
+                    }
+                }
+            }
+        }
+    }
     // (3) str(): the canonical decimal text
     let texts = ["5", "-1", "2.5", "true", "false", "1", "0.5", "18446744073709551615", "inf", "NaN", "1000", "0", "-0"];
     for t in texts {
@@ -2164,6 +2274,10 @@ pub fn run_c10(ctx: &mut Ctx, _known: &Known) {
             map1("a", map1("b", Yaml::Sequence(vec![map1("c", ys("deep"))]))),
             map1("a", map1("b", map1("0", map1("c", ys("deep"))))),
             map1("a", Yaml::Sequence(vec![Yaml::Sequence(vec![ys("in")]), map1("0", ys("k"))])),
+            // keys are compared exactly: `A` is not `a`, `B` not `b` (in every representation)
+            map1("A", map1("B", ys("deep"))),
+            map1("a", mapn(vec![("B".into(), ys("deep")), ("C".into(), Yaml::Sequence(vec![ys("zero")]))])),
+            mapn(vec![("A".into(), map1("b", ys("upper"))), ("a".into(), map1("B", ys("deep")))]),
         ];
         let lit_paths: Vec<Vec<(String, Option<usize>)>> = vec![
             vec![("a".into(), None), ("b".into(), None)],
@@ -2177,6 +2291,12 @@ pub fn run_c10(ctx: &mut Ctx, _known: &Known) {
             vec![("a".into(), None), ("b".into(), Some(0)), ("c".into(), None)],
             vec![("a".into(), Some(1)), ("0".into(), None)],
             vec![("a".into(), Some(0)), ("0".into(), None)],
+            vec![("A".into(), None), ("B".into(), None)],
+            vec![("A".into(), None), ("b".into(), None)],
+            vec![("a".into(), None), ("B".into(), None)],
+            vec![("a".into(), None), ("c".into(), Some(0))],
+            vec![("a".into(), None), ("C".into(), Some(0))],
+            vec![("A".into(), None)],
         ];
         for d in &lit_docs {
             for path in &lit_paths {
@@ -2887,6 +3007,9 @@ fn c17_rows_one_field(ctx: &mut Ctx) {
         vec![("a", ys(">5")), ("int(a)", ys("<10"))],
         vec![("a", ys(">5")), ("flt(a)", ys("<10")), ("int(a)", ys(">6"))],
         vec![("a", ys("?^x")), ("str(a)", ys("?z$")), ("not(a)", ys("xqz"))],
+        vec![("a", ys("*")), ("str(a)", ys("7*"))],
+        vec![("str(a)", ys("*")), ("a", ys("x*"))],
+        vec![("a", ys("*")), ("int(a)", ys(">5")), ("b", ys("1"))],
     ];
     let others: Vec<Yaml> = vec![map1("a", ys("zz")), mapn(vec![("a".into(), ys("3")), ("b".into(), ys("1"))])];
     let masks = vec![0u64, 15, 14, 10, 8, 12];
@@ -2918,6 +3041,44 @@ fn c17_rows_one_field(ctx: &mut Ctx) {
                     Some(b) => {
                         if *b != got {
                             ctx.violation("oracle", "reordering the entries of a mapping that reads one field through two key forms changes a verdict", &ex, &rule_yaml(&c), true);
+                            break;
+                        }
+                    }
+                }
+            }
+        }
+    }
+}
+
+/// (a''') lists that mix kinds (string patterns next to bare numbers, booleans, null) under a plain
+///        key, in every order: a member means the same wherever it stands
+fn c17_mixed_kind_lists(ctx: &mut Ctx) {
+    let docs: Vec<Yaml> = vec![ys("8080"), Yaml::Number(8080u64.into()), ys("http"), ys("https-alt"), Yaml::Bool(true), ys("true"), Yaml::Null, ys("null"), Yaml::Number(2.5f64.into()), ys("2.5"), ys("x")].into_iter().map(|v| map1("port", v)).chain(std::iter::once(map1("other", ys("x")))).collect();
+    let sets: Vec<Vec<Yaml>> = vec![
+        vec![ys("http*"), Yaml::Number(8080u64.into())], vec![ys("http*"), Yaml::Number(8080u64.into()), ys("*alt")], vec![Yaml::Bool(true), ys("x")], vec![Yaml::Null, ys("nu*"), Yaml::Number(2.5f64.into())],
+        vec![ys("i8080"), Yaml::Number(8080u64.into())], vec![ys("?^80"), Yaml::Number(8080u64.into()), Yaml::Bool(true)], vec![ys("*"), Yaml::Number(8080u64.into())],
+    ];
+    let masks = vec![0u64, 15, 2, 4];
+    for members in &sets {
+        let mut base: Option<Vec<Vec<bool>>> = None;
+        for perm in permutations(&(0..members.len()).collect::<Vec<_>>()) {
+            let seq: Vec<Yaml> = perm.iter().map(|&j| members[j].clone()).collect();
+            for as_blocks in [false, true] {
+                let body = if as_blocks { Yaml::Sequence(seq.iter().map(|m| map1("port", m.clone())).collect()) } else { map1("port", Yaml::Sequence(seq.clone())) };
+                let c = case(vec![("A".into(), body), ("condition".into(), ys("A"))], docs.clone(), masks.clone());
+                let (ex, parsed) = run_rule_case(ctx, &c, false);
+                let p = match parsed {
+                    Some(p) if p.load == "ok" => p,
+                    _ => continue,
+                };
+                ctx.nontrivial.insert(hash_str(&ex.line));
+                let got: Vec<Vec<bool>> = masks.iter().map(|m| tri_of(&p, *m).iter().map(|t| t == "T").collect()).collect();
+                match &base {
+                    None => base = Some(got),
+                    Some(b) => {
+                        if *b != got {
+                            let which = (0..masks.len()).find(|i| b[*i] != got[*i]).unwrap_or(0);
+                            ctx.violation("oracle", &format!("reordering the members {:?} of a mixed-kind list changes a verdict (mask {})", members, masks[which]), &ex, &rule_yaml(&c), true);
                             break;
                         }
                     }
@@ -3001,6 +3162,7 @@ pub fn run_c17(ctx: &mut Ctx, _known: &Known) {
     c17_fixed(ctx);
     c17_rows_one_field(ctx);
     c17_twins_and_long_lists(ctx);
+    c17_mixed_kind_lists(ctx);
     let n = budget(ctx, 250, 6000);
     let masks = vec![0u64, 15];
     for i in 0..n {
